@@ -94,7 +94,7 @@ fn corpus_case(rng: &mut Rng, small: bool, sel: usize) -> ConnCase {
 
 fn ctl(base: ConnCase) -> CtlCase {
     let end = base_mode(&base);
-    CtlCase { write_err: None, base, cut: None, end, handlers: Handlers::Sequential, fresh: false, vanish_first: 0, vanish_data: vec![], gaps: vec![], events: false }
+    CtlCase { write_err: None, base, cut: None, end, handlers: Handlers::Sequential, fresh: false, vanish_first: 0, vanish_data: vec![], prelude: vec![], gaps: vec![], events: false }
 }
 
 fn obs_key(o: &Outcome) -> (Vec<String>, Vec<u8>, bool, Vec<String>) {
@@ -374,7 +374,10 @@ pub fn par_family(id0: usize, rng: &mut Rng, out: &mut Vec<String>) {
 /// C11: pipelines whose requests must all become available while none has been answered; and a
 /// large / chunked body that is read to its end before the successor is waited for.
 pub fn ahead_family(id0: usize, rng: &mut Rng, out: &mut Vec<String>) {
-    let n = rng.range(2, 8);
+    // now and then a pipeline whose heads are small each (1.5 KiB) and large together (above 8 KiB,
+    // above 16 KiB): what the earlier requests of a connection were like must not matter
+    let big_heads = rng.chance(1, 6);
+    let n = if big_heads { *rng.pick(&[7usize, 8, 12]) } else { rng.range(2, 8) };
     let streamed_first = rng.chance(1, 3);
     let mut reqs = vec![];
     let mut script = vec![];
@@ -416,7 +419,7 @@ pub fn ahead_family(id0: usize, rng: &mut Rng, out: &mut Vec<String>) {
             r.hdrs.push((verif_harness::recase(rng, "Connection"), (*rng.pick(&["TE", "foo", "TE, X-Hop"])).into()));
         }
         // heads that are large together, small each
-        if rng.chance(1, 5) {
+        if big_heads || rng.chance(1, 8) {
             r.hdrs.push(("Cookie".into(), "c".repeat(1500)));
         }
         reqs.push(r);
@@ -475,10 +478,14 @@ pub fn idle_family(id0: usize, rng: &mut Rng, out: &mut Vec<String>) {
         let k = rng.below(base.script.len());
         base.script[k].delay_ms = *rng.pick(&[6_000u64, 12_000]);
     }
+    // the same conversation without any pause (C13: pauses between the segments are no input)
+    let c0 = ctl(base.clone());
+    let o0 = execute(&c0, &default_cfg(rng));
     let mut c = ctl(base);
     c.gaps = gaps.clone();
     let o = execute(&c, &default_cfg(rng));
-    out.push(line_of(id0, &c, &o, &format!("i_fam=idle gaps={} slow={}", gaps.len(), if slow { 1 } else { 0 })));
+    let same = obs_key(&o) == obs_key(&o0);
+    out.push(line_of(id0, &c, &o, &format!("i_fam=idle gaps={} slow={} same={}", gaps.len(), if slow { 1 } else { 0 }, if same { 1 } else { 0 })));
 }
 
 /// C15: clients that connect and reset before the server accepts them; the server must keep
@@ -512,4 +519,29 @@ pub fn vanishdata_family(id0: usize, rng: &mut Rng, out: &mut Vec<String>) {
     c.fresh = true;
     let o = execute(&c, &default_cfg(rng));
     out.push(line_of(id0, &c, &o, &format!("i_fam=vanishdata vanish={} panicked={}", c.vanish_first, if o.panicked { 1 } else { 0 })));
+}
+
+/// C08: connections that ended in the middle of a request line or header line come first (as many
+/// as the pool has initial workers, and a few more); the conversation under test is then served
+/// by a worker that has seen one of them, exactly as a fresh server would serve it.
+pub fn midline_family(id0: usize, rng: &mut Rng, out: &mut Vec<String>) {
+    let mut base = g::gen_mixed(rng);
+    base.mode = Mode::HalfClose;
+    no_panic_script(&mut base);
+    let mut c = ctl(base);
+    let n = rng.range(4, 8);
+    for _ in 0..n {
+        let p: &[u8] = *rng.pick(&[
+            &b"GE"[..],
+            &b"GET /cut HTTP/1.1\r\nHost: cu"[..],
+            &b"POST /cut HTTP/1.1\r\nContent-Length: 3\r\nX-Cut"[..],
+            &b"GET /cut HTTP/1.1\r"[..],
+            &b"\xff\xfe\xfd"[..],
+            &b"GET /cut HTTP/1.1\r\nCookie: \xc3"[..],
+        ]);
+        c.prelude.push(p.to_vec());
+    }
+    c.fresh = true;
+    let o = execute(&c, &default_cfg(rng));
+    out.push(line_of(id0, &c, &o, &format!("i_fam=midline prelude={} panicked={}", n, if o.panicked { 1 } else { 0 })));
 }
